@@ -60,3 +60,38 @@ Theorem C03_tree_shape_always : forall cf parents root fuel l,
   wk root (final_state cf parents root fuel (init_rnode root) l).
 Proof. exact history_wk. Qed.
 Print Assumptions C03_tree_shape_always.
+
+(* ---- configuration integrity as an invariant over every history (whole machines, every nesting depth) ---- *)
+From Msm Require Import Spec Lemmas_Sim Lemmas_Core Lemmas_SpecMp11 Lemmas_SpecRun Lemmas_SpecFlags Lemmas_SpecInv.
+
+(* `inv mc c`: every region of mc has one slot holding a state of that region, the history memory likewise, and the
+   same holds in the sub-configuration under every submachine state - active or not - at every depth.
+   `wfz`: the rows of the definition stay inside their source's region, internal rows have no target, the initial states
+   are one per region (the documented well-formedness of a table with orthogonal regions).
+   The specification function keeps `inv` through every operation, for every definition (not only the core fragment),
+   every policy and every guard valuation: *)
+Theorem C03_spec_integrity_invariant : forall stale pol mc, wfz mc -> forall l c, inv mc c -> inv mc (sp_final stale pol mc c l).
+Proof. exact sp_final_inv. Qed.
+Print Assumptions C03_spec_integrity_invariant.
+
+Theorem C03_spec_fresh_object : forall mc, wfz mc -> inv mc (abs (init_rnode mc)).
+Proof. exact inv_init. Qed.
+Print Assumptions C03_spec_fresh_object.
+
+(* the engines: after every history of start / events / stop on a core definition the runtime tree's configuration
+   satisfies inv: exactly one active state per region, belonging to that region, at every level *)
+Theorem C03_back_integrity_after_every_history : forall cf, c_be cf = Back -> forall parents, (forall e, nth e parents None = None) ->
+  back_start_queues = true -> forall root, core root -> wfz root -> forall fuel, depth root + 2 <= fuel -> forall l, Forall plain_op l ->
+  inv root (abs (final_rn cf root (build cf parents false root) fuel (init_rnode root) l)).
+Proof. exact back_integrity_after_history. Qed.
+Print Assumptions C03_back_integrity_after_every_history.
+
+Theorem C03_mp11_integrity_after_every_history : forall cf, c_be cf = Mp11 -> forall parents, (forall e, nth e parents None = None) ->
+  mp11_entry_throw_resets = true -> forall root, core root -> m_hist root = HNone -> wfz root ->
+  forall fuel, depth root + 2 <= fuel -> forall l, bracketed false l ->
+  inv root (abs (final_rn cf root (build cf parents false root) fuel (init_rnode root) l)).
+Proof. exact mp11_integrity_after_history. Qed.
+Print Assumptions C03_mp11_integrity_after_every_history.
+
+Example C03_integrity_example : wfz (md_root ex_core_md) /\ core (md_root ex_core_md) /\ Forall plain_op ex_core_ops.
+Proof. split; [exact ex_core_wfz|]. split; [exact ex_core_ok|]. repeat constructor; cbn; discriminate. Qed.
